@@ -253,9 +253,16 @@ type modTarget struct {
 }
 
 func (fr *Frame) applyContract(st *State, spec *FuncSpec, fn *ssa.Function, args []Val, in ssa.Instruction, pos token.Pos, sig *types.Signature) []Val {
+	return fr.applyContractEnv(st, spec, fn, args, nil, in, pos, sig)
+}
+
+func (fr *Frame) applyContractEnv(st *State, spec *FuncSpec, fn *ssa.Function, args []Val, extra map[string]Val, in ssa.Instruction, pos token.Pos, sig *types.Signature) []Val {
 	u := fr.u
 	u.note("callee contract used: " + u.eng.funcKey(fn))
 	env := u.paramEnv(fn, args)
+	for k, v := range extra {
+		env[k] = v
+	}
 	cname := sanitize(fn.Name())
 	ctx := &specCtx{fr: fr, cur: st, old: st, env: env, pkg: fn.Pkg.Pkg}
 	for _, cl := range spec.Requires {
@@ -506,7 +513,6 @@ func fieldIndex(st *types.Struct, name string) int {
 	return -1
 }
 
-
 // mapObjWF re-states mapWF for the single map object m of heap tag `tag` after its contents were havocked.
 func (u *Unit) mapObjWF(st *State, tag, m string) {
 	mt := u.mapTags[tag]
@@ -562,6 +568,7 @@ func (fr *Frame) fieldCall(st *State, fv ssa.Value, args []Val, in ssa.Instructi
 		return nil, false
 	}
 	full := args
+	var extra map[string]Val
 	if tfn.Signature.Recv() != nil {
 		recv, err := u.ghostVal(st, fb.Recv, tfn.Params[0].Type())
 		if err != nil {
@@ -569,8 +576,21 @@ func (fr *Frame) fieldCall(st *State, fv ssa.Value, args []Val, in ssa.Instructi
 			return nil, false
 		}
 		full = append([]Val{recv}, args...)
+	} else if len(tfn.FreeVars) > 0 && fb.Recv != "" {
+		// a closure: its first captured variable (a cell holding the server pointer) is the bound object
+		fv := tfn.FreeVars[0]
+		ty := fv.Type()
+		if pt, ok := ty.Underlying().(*types.Pointer); ok {
+			ty = pt.Elem()
+		}
+		recv, err := u.ghostVal(st, fb.Recv, ty)
+		if err != nil {
+			u.failed = err.Error()
+			return nil, false
+		}
+		extra = map[string]Val{fv.Name(): recv}
 	}
-	return fr.applyContract(st, spec, tfn, full, in, pos, sig), true
+	return fr.applyContractEnv(st, spec, tfn, full, extra, in, pos, sig), true
 }
 
 // ghostVal reads a ghost constant (e.g. $srv) as a value of Go type t.
@@ -796,12 +816,12 @@ func init() {
 		"log.Print":               noop,
 		"(*sync.WaitGroup).Add":   noop,
 		"(*sync.WaitGroup).Done":  noop,
-		"(*sync.Mutex).Lock":      lockModel("lock"),
-		"(*sync.Mutex).Unlock":    lockModel("unlock"),
-		"(*sync.RWMutex).Lock":    lockModel("lock"),
-		"(*sync.RWMutex).Unlock":  lockModel("unlock"),
-		"(*sync.RWMutex).RLock":   lockModel("rlock"),
-		"(*sync.RWMutex).RUnlock": lockModel("runlock"),
+		"(*sync.Mutex).Lock":      lockModel("lock", 0),
+		"(*sync.Mutex).Unlock":    lockModel("unlock", 0),
+		"(*sync.RWMutex).Lock":    lockModel("lock", 1),
+		"(*sync.RWMutex).Unlock":  lockModel("unlock", 1),
+		"(*sync.RWMutex).RLock":   lockModel("rlock", 1),
+		"(*sync.RWMutex).RUnlock": lockModel("runlock", 1),
 	}
 	models["strings.ToLower"] = func(fr *Frame, st *State, args []Val, in ssa.Instruction, pos token.Pos) ([]Val, bool) {
 		u := fr.u
@@ -1006,10 +1026,16 @@ func (u *Unit) declItoa() {
 	u.reg.axiom("(assert (forall ((n Int)) (! (=> (< n 0) (>= (slen (itoa n)) 2)) :pattern ((itoa n)))))")
 }
 
-func lockModel(op string) modelFn {
+// lockKey: index of a mutex in the ghost lockset. Mutex and RWMutex objects get disjoint keys (references are untyped
+// integers, so two objects of different types may carry the same number).
+func lockKey(a string, kind int) string {
+	return fmt.Sprintf("(+ (* 2 %s) %d)", a, kind)
+}
+
+func lockModel(op string, kind int) modelFn {
 	return func(fr *Frame, st *State, args []Val, in ssa.Instruction, pos token.Pos) ([]Val, bool) {
 		u := fr.u
-		a := args[0].T
+		a := lockKey(args[0].T, kind)
 		l := u.hget(st, "$lock", lockSort)
 		cur := sel(l, a)
 		switch op {
@@ -1074,7 +1100,6 @@ func (fr *Frame) closurePred(st *State, ci *closInfo, x Val) (string, bool) {
 	}
 	return term, true
 }
-
 
 // ---------- container/heap (assumed contract: only the heap.Interface methods are called, with in-range indices) ----------
 
@@ -1301,7 +1326,6 @@ func initHeapModels() {
 		return []Val{{r, s.Ty, ""}}, true
 	}
 }
-
 
 // ---------- sync/atomic: one ghost cell per atomic variable address ----------
 
